@@ -74,3 +74,16 @@ Theorem C12_reported_number_is_the_drawing : forall maxiter g g' x,
   ordered_proper g' /\ x = drawing_crossings g'.
 Proof. exact exec_wmedian_drawing. Qed.
 Print Assumptions C12_reported_number_is_the_drawing.
+
+(* ---------- end to end (Proofs/E2E*.v, Whole*.v, NS*.v, Final.v): no premise besides hypotheses on the input ---------- *)
+From Autog Require Import Pipeline E2EBackbone E2EOutput WholeCrossings WholeOverlap WholeLayout Final.
+
+
+(* [W2_statement o g g' x] (Proofs/WholeCrossings.v): through the whole pipeline of a component — the ordering phase
+   reports x = Some cx with cx the counter's value on the order it installs; positions, bands and band orders are
+   unchanged by positioning, routing and post-processing; if the input component has no two non-self-loop edges
+   joining the same pair of nodes, cx is the number of crossings of the drawing *)
+Theorem C12_component_end_to_end : forall o g g' x, component_input g -> options_ok o ->
+  layout_component o g = Ok (g', x) -> W2_statement o g g' x.
+Proof. exact G6_crossings. Qed.
+Print Assumptions C12_component_end_to_end.
